@@ -9,5 +9,5 @@ def run(c):
     ]
     c.outside += ['delay spellings (parse_duration_to_milliseconds: lexer + f64) — only delay_ms values are symbolic', 'timer/session thread interleavings', 'more than two pending sends per harness run']
     c.run_m('h_c16_sched', expect_checks=(1601, 1602, 1603, 1604, 1605, 1606), expect_cover=(1601,), bounds={'delay_ms': 'any u64 >= 400 (incl. values that are negative as i64)', 'target': "'' / #_internal", 'cancel': 'none / this id / another id'})
-    c.run_m('h_c16_two', expect_checks=(1620,), expect_cover=(1620,), bounds={'two pending sends': 'without ids / one id / two ids', 'cancel of the first': 'both'})
+    c.run_m('h_c16_two', expect_checks=(1620,), expect_cover=(1620,), bounds={'two pending sends': 'without ids / one id / two ids / the same id twice', 'cancel of the first': 'both'})
     c.run_m('h_c16_fire', expect_checks=(1610, 1611, 1612, 1613), expect_cover=(1610,), bounds={'param value': 'any i64, changed after the send executed', 'session dropped before due time': 'both'})
